@@ -63,4 +63,242 @@ __CPROVER_ensures((__CPROVER_isnand(a) || __CPROVER_isnand(b)) ==> __CPROVER_ret
 __CPROVER_ensures(__CPROVER_return_value == 0 || __CPROVER_return_value == 1) /*@C12*/
 __CPROVER_assigns();
 
+/* ------------------------------------------------------------------ buffer_skip_whitespace (loop contract in loops.tbl)
+ * skips exactly the maximal run of bytes <= 0x20 (the lenient whitespace of C03); if that run reaches the end of the
+ * buffer the offset is left on the last byte */
+static parse_buffer *buffer_skip_whitespace(parse_buffer * const buffer)
+__CPROVER_requires(buffer == NULL || (__CPROVER_is_fresh(buffer, sizeof(*buffer)) &&
+    (buffer->content == NULL || (buffer->length <= VF_MAXLEN && __CPROVER_is_fresh(buffer->content, buffer->length) && buffer->offset <= buffer->length))))
+__CPROVER_ensures((buffer == NULL || buffer->content == NULL) ==> __CPROVER_return_value == NULL) /*@C01*/
+__CPROVER_ensures((buffer != NULL && buffer->content != NULL) ==> (__CPROVER_return_value == buffer && buffer->offset >= __CPROVER_old(buffer->offset) && buffer->offset <= buffer->length)) /*@C01*/
+__CPROVER_ensures((buffer != NULL && buffer->content != NULL && __CPROVER_old(buffer->offset) < buffer->length) ==> buffer->offset < buffer->length) /*@C01 C10*/
+__CPROVER_ensures((buffer != NULL && buffer->content != NULL && __CPROVER_old(buffer->offset) >= buffer->length) ==> buffer->offset == __CPROVER_old(buffer->offset)) /*@C01*/
+/* everything skipped is whitespace (pointwise at the arbitrary index g_k) */
+__CPROVER_ensures((buffer != NULL && buffer->content != NULL && g_k >= __CPROVER_old(buffer->offset) && g_k < buffer->offset) ==> buffer->content[g_k] <= 32) /*@C02 C03 C10*/
+/* and it stops at the first non-whitespace byte, or on the last byte of the buffer */
+__CPROVER_ensures((buffer != NULL && buffer->content != NULL && __CPROVER_old(buffer->offset) < buffer->length) ==> (buffer->content[buffer->offset] > 32 || buffer->offset == buffer->length - 1)) /*@C02 C03 C10*/
+__CPROVER_assigns(buffer != NULL && buffer->content != NULL: buffer->offset);
+
+/* ------------------------------------------------------------------ skip_utf8_bom */
+#define HAS_BOM(b) ((b)->length >= 4 && (b)->content[0] == 0xEF && (b)->content[1] == 0xBB && (b)->content[2] == 0xBF)
+static parse_buffer *skip_utf8_bom(parse_buffer * const buffer)
+__CPROVER_requires(buffer == NULL || (__CPROVER_is_fresh(buffer, sizeof(*buffer)) &&
+    (buffer->content == NULL || (buffer->length <= VF_MAXLEN && __CPROVER_is_fresh(buffer->content, buffer->length) && buffer->offset <= buffer->length))))
+__CPROVER_ensures((buffer == NULL || buffer->content == NULL || __CPROVER_old(buffer->offset) != 0) ==> __CPROVER_return_value == NULL) /*@C01*/
+__CPROVER_ensures((buffer != NULL && buffer->content != NULL && __CPROVER_old(buffer->offset) == 0) ==> __CPROVER_return_value == buffer) /*@C01*/
+/* a BOM followed by at least one byte is skipped (C02: "a leading UTF-8 BOM", exact-length buffers included) */
+__CPROVER_ensures((__CPROVER_return_value != NULL && HAS_BOM(buffer)) ==> buffer->offset == 3) /*@C02*/
+/* nothing else is skipped */
+__CPROVER_ensures((__CPROVER_return_value != NULL && !(buffer->length >= 3 && buffer->content[0] == 0xEF && buffer->content[1] == 0xBB && buffer->content[2] == 0xBF)) ==> buffer->offset == 0) /*@C02 C03*/
+__CPROVER_ensures(__CPROVER_return_value != NULL ==> (buffer->offset == 0 || buffer->offset == 3) && buffer->offset <= buffer->length) /*@C01*/
+__CPROVER_assigns(buffer != NULL && buffer->content != NULL: buffer->offset);
+
+/* ------------------------------------------------------------------ parse_number   (loop contract in loops.tbl)
+ * The candidate token handed to strtod is exactly the maximal run (<= 63 bytes, inside the buffer) of bytes in [0-9+-eE.],
+ * with '.' translated to the locale's point; the accepted token is the prefix strtod consumes (grammar in models.h: vf_numlen). */
+#define SAT_INT(d) ((d) >= INT_MAX ? INT_MAX : ((d) <= (double)INT_MIN ? INT_MIN : (int)(d)))
+#define PB_NULLTOL(b) ((b) == NULL || (__CPROVER_is_fresh((b), sizeof(parse_buffer)) && \
+    ((b)->content == NULL || ((b)->length <= VF_MAXLEN && __CPROVER_is_fresh((b)->content, (b)->length) && (b)->offset <= (b)->length))))
+#define PB_USABLE(b) ((b) != NULL && (b)->content != NULL)
+#define LOCALE_OK (vf_lconv.decimal_point == vf_dp && vf_dp[1] == 0 && (VF_DECIMAL_POINT == '.' || VF_DECIMAL_POINT == ',' || VF_DECIMAL_POINT == 0xd9))
+#define PN_OLD_OFF __CPROVER_old(input_buffer->offset)
+static cJSON_bool parse_number(cJSON * const item, parse_buffer * const input_buffer)
+__CPROVER_requires(__CPROVER_is_fresh(item, sizeof(cJSON)) && PB_NULLTOL(input_buffer) && LOCALE_OK)
+__CPROVER_ensures(!PB_USABLE(input_buffer) ==> !__CPROVER_return_value) /*@C01*/
+/* candidate token: maximal run of number bytes */
+__CPROVER_ensures(PB_USABLE(input_buffer) ==> (g_strtod_len <= 63 && g_strtod_len <= input_buffer->length - PN_OLD_OFF)) /*@C01 C02 C03*/
+__CPROVER_ensures((PB_USABLE(input_buffer) && g_k < g_strtod_len) ==> (NUM_CHAR(input_buffer->content[PN_OLD_OFF + g_k]) &&
+    g_strtod_at_k == (input_buffer->content[PN_OLD_OFF + g_k] == '.' ? VF_DECIMAL_POINT : input_buffer->content[PN_OLD_OFF + g_k]))) /*@C02 C03*/
+__CPROVER_ensures(PB_USABLE(input_buffer) ==> (g_strtod_len == 63 || g_strtod_len == input_buffer->length - PN_OLD_OFF || !NUM_CHAR(input_buffer->content[PN_OLD_OFF + g_strtod_len]))) /*@C02 C03*/
+/* accepted iff strtod converts something; the offset advances by exactly what it consumed */
+__CPROVER_ensures(PB_USABLE(input_buffer) ==> ((__CPROVER_return_value != 0) == (g_strtod_consumed > 0) && input_buffer->offset == PN_OLD_OFF + g_strtod_consumed && g_strtod_consumed <= g_strtod_len)) /*@C01 C02 C03 C10*/
+__CPROVER_ensures(!__CPROVER_return_value ==> (item->type == __CPROVER_old(item->type) && item->valueint == __CPROVER_old(item->valueint) && item->valuedouble == __CPROVER_old(item->valuedouble))) /*@C03*/
+__CPROVER_ensures(__CPROVER_return_value ==> (item->type == cJSON_Number && item->valuedouble == g_strtod_value && item->valueint == SAT_INT(g_strtod_value))) /*@C02*/
+__CPROVER_ensures(PB_USABLE(input_buffer) ==> (input_buffer->offset <= input_buffer->length && input_buffer->content == __CPROVER_old(input_buffer->content) && input_buffer->length == __CPROVER_old(input_buffer->length))) /*@C01*/
+__CPROVER_assigns(item->type, item->valueint, item->valuedouble, GHOST_STRTOD; PB_USABLE(input_buffer): input_buffer->offset);
+
+/* ================================================================== views and ghost logs (DESIGN 1.3/1.4)
+ * A unit is compiled with -DVF_ENF_<f> for the function f it enforces.  For tree-building functions the success-case
+ * leak clause has two views: the ENFORCED view names the blocks f itself attached (g_live may be one of them); the CALLEE
+ * view used when f is replaced at a call site says g_live is unchanged, i.e. blocks f attached below the node it was given
+ * are owned by that node's subtree and their release is cJSON_Delete's obligation (composition lemma, DESIGN 1.4).
+ * g_disp/g_disp_ret/g_pv_end log which delegate a replaced callee was and what it answered (ghost only). */
+enum { D_NONE = 0, D_STRING = 1, D_NUMBER = 2, D_ARRAY = 3, D_OBJECT = 4, D_VALUE = 5 };
+int g_disp; cJSON_bool g_disp_ret; size_t g_pv_end;
+#define GHOST_LOG g_disp, g_disp_ret, g_pv_end
+#define LOGGED(tag, buf) (g_disp == (tag) && g_disp_ret == __CPROVER_return_value && g_pv_end == (buf)->offset)
+#define LIVE_SAME (g_live == __CPROVER_old(g_live))
+
+/* what every parse function guarantees about its buffer and item (derived from the code, checked for each) */
+#define PARSE_COMMON(item, b) \
+    __CPROVER_ensures(PB_SAME(b) && (b)->depth == __CPROVER_old((b)->depth)) /*@C01 C10*/ \
+    __CPROVER_ensures(__CPROVER_return_value ==> (b)->offset > __CPROVER_old((b)->offset)) /*@C01*/ \
+    __CPROVER_ensures(!__CPROVER_return_value ==> ((item)->type == __CPROVER_old((item)->type) && (item)->valuestring == __CPROVER_old((item)->valuestring) && \
+        (item)->child == __CPROVER_old((item)->child) && (item)->valueint == __CPROVER_old((item)->valueint))) /*@C03*/ \
+    __CPROVER_ensures(!__CPROVER_return_value ==> LIVE_SAME) /*@C01 C03 C08*/ \
+    __CPROVER_ensures(C14_POST((b)->hooks)) /*@C14*/
+#define PARSE_ASSIGNS(item, b) (item)->type, (item)->valueint, (item)->valuedouble, (item)->valuestring, (item)->child, (b)->offset, (b)->depth, GHOST_ALLOC, GHOST_STRTOD, GHOST_LOG
+
+/* ------------------------------------------------------------------ callee views of the sub-parsers (replaced in parse_value) */
+#ifndef VF_ENF_parse_string
+static cJSON_bool parse_string(cJSON * const item, parse_buffer * const input_buffer)
+__CPROVER_requires(__CPROVER_is_fresh(item, sizeof(cJSON)) && PB_FRESH(input_buffer))
+PARSE_COMMON(item, input_buffer)
+__CPROVER_ensures(__CPROVER_return_value ==> (item->type == cJSON_String && __CPROVER_is_fresh(item->valuestring, 1) && item->child == __CPROVER_old(item->child)))
+__CPROVER_ensures(__CPROVER_return_value ==> LIVE_SAME)
+__CPROVER_ensures(LOGGED(D_STRING, input_buffer))
+__CPROVER_assigns(PARSE_ASSIGNS(item, input_buffer));
+#endif
+
+#ifndef VF_ENF_parse_array
+static cJSON_bool parse_array(cJSON * const item, parse_buffer * const input_buffer)
+__CPROVER_requires(__CPROVER_is_fresh(item, sizeof(cJSON)) && PB_FRESH(input_buffer) && input_buffer->offset < input_buffer->length)
+PARSE_COMMON(item, input_buffer)
+__CPROVER_ensures(__CPROVER_return_value ==> (item->type == cJSON_Array && item->valuestring == __CPROVER_old(item->valuestring)))
+__CPROVER_ensures(__CPROVER_return_value ==> LIVE_SAME)
+__CPROVER_ensures(LOGGED(D_ARRAY, input_buffer))
+__CPROVER_assigns(PARSE_ASSIGNS(item, input_buffer));
+#endif
+
+#ifndef VF_ENF_parse_object
+static cJSON_bool parse_object(cJSON * const item, parse_buffer * const input_buffer)
+__CPROVER_requires(__CPROVER_is_fresh(item, sizeof(cJSON)) && PB_FRESH(input_buffer))
+PARSE_COMMON(item, input_buffer)
+__CPROVER_ensures(__CPROVER_return_value ==> (item->type == cJSON_Object && item->valuestring == __CPROVER_old(item->valuestring)))
+__CPROVER_ensures(__CPROVER_return_value ==> LIVE_SAME)
+__CPROVER_ensures(LOGGED(D_OBJECT, input_buffer))
+__CPROVER_assigns(PARSE_ASSIGNS(item, input_buffer));
+#endif
+
+/* parse_number as a callee: the subset of its proved contract that parse_value needs, plus the log */
+#ifdef VF_ENF_parse_value
+static cJSON_bool parse_number_cv(cJSON * const item, parse_buffer * const input_buffer)
+__CPROVER_requires(__CPROVER_is_fresh(item, sizeof(cJSON)) && PB_FRESH(input_buffer))
+PARSE_COMMON(item, input_buffer)
+__CPROVER_ensures(__CPROVER_return_value ==> (item->type == cJSON_Number && item->valuestring == __CPROVER_old(item->valuestring) && item->child == __CPROVER_old(item->child)))
+__CPROVER_ensures(!__CPROVER_return_value ==> input_buffer->offset == __CPROVER_old(input_buffer->offset))
+__CPROVER_ensures(LIVE_SAME && g_hook_allocs == __CPROVER_old(g_hook_allocs))
+__CPROVER_ensures(LOGGED(D_NUMBER, input_buffer))
+__CPROVER_assigns(PARSE_ASSIGNS(item, input_buffer));
+#endif
+
+/* ------------------------------------------------------------------ parse_value */
+#define AT(b, i) ((b)->content[__CPROVER_old((b)->offset) + (i)])
+#define ROOM(b, n) (__CPROVER_old((b)->offset) + (n) <= (b)->length)
+#define LIT_NULL(b)  (ROOM(b, 4) && AT(b,0) == 'n' && AT(b,1) == 'u' && AT(b,2) == 'l' && AT(b,3) == 'l')
+#define LIT_TRUE(b)  (ROOM(b, 4) && AT(b,0) == 't' && AT(b,1) == 'r' && AT(b,2) == 'u' && AT(b,3) == 'e')
+#define LIT_FALSE(b) (ROOM(b, 5) && AT(b,0) == 'f' && AT(b,1) == 'a' && AT(b,2) == 'l' && AT(b,3) == 's' && AT(b,4) == 'e')
+#define FIRST_IS(b, c) (ROOM(b, 1) && AT(b,0) == (c))
+#define FIRST_NUM(b) (ROOM(b, 1) && (AT(b,0) == '-' || (AT(b,0) >= '0' && AT(b,0) <= '9')))
+#define OTHERS_KEPT(item) ((item)->valuestring == __CPROVER_old((item)->valuestring) && (item)->child == __CPROVER_old((item)->child))
+static cJSON_bool parse_value(cJSON * const item, parse_buffer * const input_buffer)
+__CPROVER_requires(__CPROVER_is_fresh(item, sizeof(cJSON)) && PB_FRESH(input_buffer))
+PARSE_COMMON(item, input_buffer)
+#ifdef VF_ENF_parse_value
+/* the three literals have their own types and consume exactly their spelling (C02); true also sets the integer view */
+__CPROVER_ensures(LIT_NULL(input_buffer)  ==> (__CPROVER_return_value && item->type == cJSON_NULL  && input_buffer->offset == __CPROVER_old(input_buffer->offset) + 4 && OTHERS_KEPT(item))) /*@C02*/
+__CPROVER_ensures(LIT_FALSE(input_buffer) ==> (__CPROVER_return_value && item->type == cJSON_False && input_buffer->offset == __CPROVER_old(input_buffer->offset) + 5 && OTHERS_KEPT(item))) /*@C02*/
+__CPROVER_ensures(LIT_TRUE(input_buffer)  ==> (__CPROVER_return_value && item->type == cJSON_True  && input_buffer->offset == __CPROVER_old(input_buffer->offset) + 4 && OTHERS_KEPT(item))) /*@C02*/
+/* every other production is chosen by its first byte and its verdict is passed on unchanged */
+__CPROVER_ensures(FIRST_IS(input_buffer, '\"') ==> (g_disp == D_STRING && __CPROVER_return_value == g_disp_ret && input_buffer->offset == g_pv_end)) /*@C02 C03*/
+__CPROVER_ensures(FIRST_NUM(input_buffer)      ==> (g_disp == D_NUMBER && __CPROVER_return_value == g_disp_ret && input_buffer->offset == g_pv_end)) /*@C02 C03*/
+__CPROVER_ensures(FIRST_IS(input_buffer, '[')  ==> (g_disp == D_ARRAY  && __CPROVER_return_value == g_disp_ret && input_buffer->offset == g_pv_end)) /*@C02 C03*/
+__CPROVER_ensures(FIRST_IS(input_buffer, '{')  ==> (g_disp == D_OBJECT && __CPROVER_return_value == g_disp_ret && input_buffer->offset == g_pv_end)) /*@C02 C03*/
+/* anything else - misspelt or wrongly cased literals, stray bytes, end of input - is rejected without consuming (C03) */
+__CPROVER_ensures((!LIT_NULL(input_buffer) && !LIT_FALSE(input_buffer) && !LIT_TRUE(input_buffer) && !FIRST_IS(input_buffer, '\"') && !FIRST_NUM(input_buffer) &&
+    !FIRST_IS(input_buffer, '[') && !FIRST_IS(input_buffer, '{')) ==> (!__CPROVER_return_value && input_buffer->offset == __CPROVER_old(input_buffer->offset) && g_disp == D_NONE)) /*@C03*/
+#else
+__CPROVER_ensures(LOGGED(D_VALUE, input_buffer))
+#endif
+__CPROVER_ensures(__CPROVER_return_value ==> LIVE_SAME) /*@C01 C08*/
+__CPROVER_assigns(PARSE_ASSIGNS(item, input_buffer));
+
+/* ------------------------------------------------------------------ cJSON_Delete, callee view for a single root node
+ * (the enforced, per-node contract is proved in the unit cJSON_Delete; see c_tree section) */
+#ifndef VF_ENF_cJSON_Delete
+CJSON_PUBLIC(void) cJSON_Delete(cJSON *item)
+__CPROVER_requires(item == NULL || __CPROVER_rw_ok(item, sizeof(cJSON)))
+__CPROVER_requires(HOOKS_OK(global_hooks))
+__CPROVER_ensures(g_live == ((__CPROVER_old(g_live) == (void*)item) ? NULL : __CPROVER_old(g_live)))
+__CPROVER_ensures(C14_POST(global_hooks))
+__CPROVER_assigns(GHOST_ALLOC)
+__CPROVER_frees(item != NULL: item);
+#endif
+
+/* ------------------------------------------------------------------ cJSON_ParseWithLengthOpts  (C10, C01, C03, C08, C14)
+ * value: exactly buffer_length readable bytes (a read of byte buffer_length is out of bounds); never written (not in assigns). */
+const char *g_pl_value; size_t g_pl_len; const char **g_pl_rpe; cJSON_bool g_pl_rnt; cJSON *g_pl_ret; size_t g_pl_calls;   /* ghost log of calls */
+#define GHOST_PL g_pl_value, g_pl_len, g_pl_rpe, g_pl_rnt, g_pl_ret, g_pl_calls
+const char *g_po_value; const char **g_po_rpe; cJSON_bool g_po_rnt; cJSON *g_po_ret; size_t g_po_calls;
+#define GHOST_PO g_po_value, g_po_rpe, g_po_rnt, g_po_ret, g_po_calls
+size_t g_str_n;   /* ghost: size of the object holding a string argument (arbitrary, fixed by the harness) */
+#define PE (*return_parse_end)
+#define GE_POS global_error.position
+#define UVAL ((const unsigned char*)value)
+CJSON_PUBLIC(cJSON *) cJSON_ParseWithLengthOpts(const char *value, size_t buffer_length, const char **return_parse_end, cJSON_bool require_null_terminated)
+__CPROVER_requires(buffer_length <= VF_MAXLEN && (value == NULL || __CPROVER_is_fresh(value, buffer_length)))
+__CPROVER_requires(return_parse_end == NULL || __CPROVER_is_fresh(return_parse_end, sizeof(*return_parse_end)))
+__CPROVER_requires(HOOKS_OK(global_hooks))
+#ifdef VF_ENF_cJSON_ParseWithLengthOpts
+__CPROVER_ensures((value == NULL || buffer_length == 0) ==> __CPROVER_return_value == NULL) /*@C01 C03*/
+/* failure: error pointer and reported position agree and lie inside the buffer, never past its last byte */
+__CPROVER_ensures((__CPROVER_return_value == NULL && value != NULL) ==> (global_error.json == UVAL && (buffer_length == 0 ? GE_POS == 0 : GE_POS < buffer_length))) /*@C10*/
+__CPROVER_ensures((__CPROVER_return_value == NULL && value != NULL && return_parse_end != NULL) ==> PE == value + GE_POS) /*@C10*/
+/* success: global error pointer NULL, parse end inside [value, value+len] */
+__CPROVER_ensures(__CPROVER_return_value != NULL ==> (global_error.json == NULL && GE_POS == 0)) /*@C10*/
+__CPROVER_ensures((__CPROVER_return_value != NULL && return_parse_end != NULL) ==> (__CPROVER_same_object(PE, value) && PE >= value && PE <= value + buffer_length)) /*@C10*/
+/* the value parser's verdict decides, and without the termination requirement the parse end is where the value ended */
+__CPROVER_ensures((value != NULL && buffer_length > 0 && g_disp == D_VALUE && !g_disp_ret) ==> __CPROVER_return_value == NULL) /*@C03 C10*/
+__CPROVER_ensures((g_disp == D_VALUE && g_disp_ret && !require_null_terminated) ==> (__CPROVER_return_value != NULL && (return_parse_end == NULL || PE == value + g_pv_end))) /*@C02 C10*/
+/* termination required: success => parse end designates a zero byte inside the buffer and only bytes <= 0x20 lie between the value and it */
+__CPROVER_ensures((__CPROVER_return_value != NULL && return_parse_end != NULL && require_null_terminated) ==> (PE < value + buffer_length && *PE == '\0' && PE >= value + g_pv_end)) /*@C10*/
+__CPROVER_ensures((__CPROVER_return_value != NULL && return_parse_end != NULL && require_null_terminated && g_k >= g_pv_end && g_k < buffer_length && g_k < (size_t)(PE - value)) ==> UVAL[g_k] <= 32) /*@C10*/
+/* termination required: failure after a good value => the error position is a witness: a non-zero byte that is not whitespace, or the last byte */
+__CPROVER_ensures((__CPROVER_return_value == NULL && value != NULL && g_disp == D_VALUE && g_disp_ret && require_null_terminated && g_pv_end < buffer_length && GE_POS < buffer_length) ==> (GE_POS >= g_pv_end && UVAL[GE_POS] != 0 && (UVAL[GE_POS] > 32 || GE_POS + 1 == buffer_length))) /*@C10*/
+__CPROVER_ensures((g_disp == D_VALUE && g_disp_ret && !require_null_terminated) ==> __CPROVER_return_value != NULL) /*@C10*/
+/* the parser is started after the BOM and leading whitespace, at a byte inside the buffer, with depth 0 and the installed hooks: see call-site preconditions */
+/* nothing allocated during a failed call remains (C03/C08); result node comes from the hooks (C14) */
+__CPROVER_ensures(__CPROVER_return_value == NULL ==> LIVE_SAME) /*@C01 C03 C08*/
+__CPROVER_ensures(__CPROVER_return_value != NULL ==> __CPROVER_rw_ok(__CPROVER_return_value, sizeof(cJSON))) /*@C01*/
+__CPROVER_ensures(C14_POST(global_hooks)) /*@C14*/
+__CPROVER_assigns(global_error, GHOST_ALLOC, GHOST_STRTOD, GHOST_LOG; return_parse_end != NULL: *return_parse_end);
+#else   /* callee view for the forwarding entry points: the call is logged, nothing else is needed there */
+__CPROVER_ensures(g_pl_value == value && g_pl_len == buffer_length && g_pl_rpe == return_parse_end && g_pl_rnt == require_null_terminated && g_pl_ret == __CPROVER_return_value && g_pl_calls == __CPROVER_old(g_pl_calls) + 1)
+__CPROVER_assigns(global_error, GHOST_ALLOC, GHOST_STRTOD, GHOST_LOG, GHOST_PL; return_parse_end != NULL: *return_parse_end);
+#endif
+
+/* ------------------------------------------------------------------ the three forwarding entry points (C01/C02: all entry points agree) */
+CJSON_PUBLIC(cJSON *) cJSON_ParseWithOpts(const char *value, const char **return_parse_end, cJSON_bool require_null_terminated)
+__CPROVER_requires(value == NULL || STR(value, g_str_n))
+__CPROVER_requires(return_parse_end == NULL || __CPROVER_is_fresh(return_parse_end, sizeof(*return_parse_end)))
+__CPROVER_requires(HOOKS_OK(global_hooks) && g_pl_calls == 0)
+#ifndef VF_ENF_cJSON_ParseWithOpts
+__CPROVER_ensures(g_po_value == value && g_po_rpe == return_parse_end && g_po_rnt == require_null_terminated && g_po_ret == __CPROVER_return_value && g_po_calls == __CPROVER_old(g_po_calls) + 1)
+__CPROVER_assigns(global_error, GHOST_ALLOC, GHOST_STRTOD, GHOST_LOG, GHOST_PL, GHOST_PO; return_parse_end != NULL: *return_parse_end);
+#else
+__CPROVER_ensures(value == NULL ==> (__CPROVER_return_value == NULL && g_pl_calls == 0)) /*@C01*/
+/* forwards the text with its terminating zero included (length strlen+1), the same out-parameter and flag, and returns the result unchanged */
+__CPROVER_ensures(value != NULL ==> (g_pl_calls == 1 && g_pl_value == value && g_pl_rpe == return_parse_end && g_pl_rnt == require_null_terminated && g_pl_ret == __CPROVER_return_value)) /*@C01 C02 C10*/
+__CPROVER_ensures(value != NULL ==> (g_pl_len >= 1 && g_pl_len <= g_str_n && value[g_pl_len - 1] == 0 && (g_k >= g_pl_len - 1 || value[g_k] != 0))) /*@C01 C02 C10*/
+__CPROVER_assigns(global_error, GHOST_ALLOC, GHOST_STRTOD, GHOST_LOG, GHOST_PL; return_parse_end != NULL: *return_parse_end);
+#endif
+
+CJSON_PUBLIC(cJSON *) cJSON_Parse(const char *value)
+__CPROVER_requires((value == NULL || STR(value, g_str_n)) && HOOKS_OK(global_hooks) && g_pl_calls == 0 && g_po_calls == 0)
+/* same parser, no out-parameter, termination not required */
+__CPROVER_ensures(g_po_calls == 1 && g_po_value == value && g_po_rpe == NULL && g_po_rnt == 0 && g_po_ret == __CPROVER_return_value) /*@C01 C02*/
+__CPROVER_assigns(global_error, GHOST_ALLOC, GHOST_STRTOD, GHOST_LOG, GHOST_PL, GHOST_PO);
+
+CJSON_PUBLIC(cJSON *) cJSON_ParseWithLength(const char *value, size_t buffer_length)
+__CPROVER_requires(buffer_length <= VF_MAXLEN && (value == NULL || __CPROVER_is_fresh(value, buffer_length)) && HOOKS_OK(global_hooks) && g_pl_calls == 0)
+__CPROVER_ensures(g_pl_calls == 1 && g_pl_value == value && g_pl_len == buffer_length && g_pl_rpe == NULL && g_pl_rnt == 0 && g_pl_ret == __CPROVER_return_value) /*@C01 C02*/
+__CPROVER_assigns(global_error, GHOST_ALLOC, GHOST_STRTOD, GHOST_LOG, GHOST_PL);
+
+CJSON_PUBLIC(const char *) cJSON_GetErrorPtr(void)
+__CPROVER_requires(global_error.json == NULL || (__CPROVER_POINTER_OFFSET(global_error.json) == 0 && global_error.position < __CPROVER_OBJECT_SIZE(global_error.json)))
+__CPROVER_ensures(global_error.json != NULL ==> __CPROVER_return_value == (const char*)global_error.json + global_error.position) /*@C10*/
+__CPROVER_ensures((global_error.json == NULL && global_error.position == 0) ==> __CPROVER_return_value == NULL) /*@C10*/
+__CPROVER_assigns();
+
+
 #endif
